@@ -238,6 +238,7 @@ static Op gen_op(Rng &r, const std::string &mode, int nkeys, bool allow_struct)
     Op o; o.ch = r.pick(chans); o.a = 0; o.b = 0;
     int base = (o.ch == 9) ? 36 : 60;
     int key = base + (int)r.below((uint32_t)nkeys);
+    if(r.chance(0.03)) key = r.chance(0.5) ? 127 : 0;      // the ends of the key range
     int p = (int)r.below(1000);
     if(p < 330) { o.kind = OP_ON; o.a = key; o.b = r.chance(0.5) ? 127 : r.range(1, 127); }
     else if(p < 520) { o.kind = r.chance(0.8) ? OP_OFF : OP_ON0; o.a = key; }
@@ -469,7 +470,11 @@ static void run_history(Case &c, Ctx &x, const std::vector<Op> &ops, const std::
         for(auto &k : model.keys) API("opn2_rt_noteOff", opn2_rt_noteOff(x.d, (uint8_t)k.first.first, (uint8_t)k.first.second));
         // also every key the workload may have touched while the comparison was suspended
         for(int ch = 0; ch < 16; ch++) for(int key = 0; key < 128; key++) if(!model.keys.count(std::make_pair(ch, key))) { bool act = false; for(size_t k2 = 0; ch < (int)after.midi.size() && k2 < after.midi[(size_t)ch].notes.size(); k2++) if(after.midi[(size_t)ch].notes[k2].note == key) act = true; if(act) API("opn2_rt_noteOff", opn2_rt_noteOff(x.d, (uint8_t)ch, (uint8_t)key)); }
-        Op g; g.kind = OP_GEN; g.ch = 0; g.a = 30 + 70; g.b = 0; exec_op(c, x, g);
+        // every other case renders the drum minimum life time (30 ms) exactly first: the life-time counter of a drum note struck
+        // at the very end of the history then lands on zero, not below it
+        Op g; g.kind = OP_GEN; g.ch = 0; g.b = 0;
+        if(c.k & 1) { g.a = 30; exec_op(c, x, g); g.a = 70; exec_op(c, x, g); count("c05_drains_with_exact_30ms_step"); }
+        else { g.a = 30 + 70; exec_op(c, x, g); }
         take_snapshot(x.d, x.tap, after);
         for(size_t ch = 0; ch < after.chip.size(); ch++)
         {
